@@ -736,4 +736,719 @@ theorem Inv.csFrame {s : St} (hi : Inv s) {l : List Nat} {sn : Nat → Nat} {d :
     Inv { s with inCs := l, seen := sn, data := d } :=
   { hi with cs_held := h1, cs_nodup := h2, cs_seen := h3 }
 
+/-- a step inside one pc class that may also touch `ndata` / `fnode` -/
+local macro "mx_frame" h:term : tactic =>
+  `(tactic| exact Inv.frame ‹Inv _› (k_upd_same (by rw [$h:term]; rfl)) rfl rfl rfl rfl rfl rfl rfl rfl rfl)
+
+theorem headNext_ne_zero {s : St} (h : headNext s ≠ 0) :
+    s.hd < s.order.length ∧ s.linked s.hd = true := by
+  unfold headNext at h
+  split at h
+  · next n g heq =>
+    have hlt : s.hd < s.order.length := by
+      apply Classical.byContradiction; intro hn
+      rw [List.getElem?_eq_none (by omega)] at heq; cases heq
+    refine ⟨hlt, ?_⟩
+    cases hl : s.linked s.hd with
+    | true => rfl
+    | false => simp [hl] at h
+  · simp at h
+
+theorem inv_step_lock {s s' : St} (hi : Inv s) :
+    ∀ e, (∃ f, e = Ev.callLock f) ∨ (∃ f o, e = Ev.fsub f o) ∨ (∃ f, e = Ev.retLock f) ∨
+      (∃ f a b, e = Ev.xchgTail f a b) ∨ (∃ f a b, e = Ev.wNext f a b) ∨ (∃ f a b, e = Ev.rNode f a b) →
+    step s e = some s' → Inv s' := by
+  intro e he hs
+  rcases he with ⟨f, rfl⟩ | ⟨f, old, rfl⟩ | ⟨f, rfl⟩ | ⟨f, a, b, rfl⟩ | ⟨f, a, b, rfl⟩ | ⟨f, a, b, rfl⟩
+  · simp only [step] at hs
+    split at hs <;> simp at hs
+    next h => subst hs; mx_frame h
+  · simp only [step] at hs
+    split at hs <;> simp at hs
+    next h =>
+    obtain ⟨rfl, hs⟩ := hs
+    split at hs <;> simp at hs <;> subst hs
+    · next h1 => exact hi.acquire (p := .acquired) rfl (by rw [h]; rfl) h1
+    · next h1 => exact hi.announce (p := .lockDec s.counter) rfl (by rw [h]; rfl) h1
+  · simp only [step] at hs
+    split at hs <;> simp at hs
+    · next h => subst hs; exact hi.holdMove (p := .held) (Or.inr rfl) (Or.inl (by rw [h]; rfl)) (fun _ => rfl)
+    · next h =>
+      obtain ⟨⟨ho, hw⟩, hs⟩ := hs
+      subst hs; exact hi.resume (p := .held) rfl (by rw [h]; rfl) ho hw
+  · simp only [step] at hs
+    split at hs <;> simp at hs
+    next m h =>
+    obtain ⟨⟨rfl, rfl⟩, hs⟩ := hs
+    subst hs; exact hi.enqueue (p := .pushXchgd b (tailNode s) s.order.length) rfl (by rw [h]; rfl)
+  · simp only [step] at hs
+    split at hs <;> simp at hs
+    · next m h => obtain ⟨_, hs⟩ := hs; subst hs; mx_frame h
+    · next m q i h =>
+      obtain ⟨_, hs⟩ := hs; subst hs
+      exact hi.link (p := .parked) (m := m) rfl (by rw [h]; rfl)
+  · simp only [step] at hs
+    split at hs <;> simp at hs
+    next h => obtain ⟨_, hs⟩ := hs; subst hs; mx_frame h
+
+theorem inv_step_try {s s' : St} (hi : Inv s) :
+    ∀ e, (∃ f, e = Ev.callTry f) ∨ (∃ f o b, e = Ev.casCounter f o b) ∨ (∃ f r, e = Ev.retTry f r) ∨
+      (∃ f, e = Ev.csEnter f) ∨ (∃ f v, e = Ev.csExit f v) ∨ (∃ f, e = Ev.callUnlock f) →
+    step s e = some s' → Inv s' := by
+  intro e he hs
+  rcases he with ⟨f, rfl⟩ | ⟨f, found, ok, rfl⟩ | ⟨f, r, rfl⟩ | ⟨f, rfl⟩ | ⟨f, v, rfl⟩ | ⟨f, rfl⟩
+  · simp only [step] at hs
+    split at hs <;> simp at hs
+    next h => subst hs; mx_frame h
+  · simp only [step] at hs
+    split at hs <;> simp at hs
+    next h =>
+    obtain ⟨⟨rfl, rfl⟩, hs⟩ := hs
+    split at hs <;> simp at hs <;> subst hs
+    · next h1 =>
+      have h1' : s.counter = 1 := by simpa using h1
+      have := hi.acquire (p := .tryDone true) rfl (by rw [h]; rfl) h1'
+      rw [h1'] at this; exact this
+    · mx_frame h
+  · simp only [step] at hs
+    split at hs <;> simp at hs
+    next r' h =>
+    obtain ⟨rfl, hs⟩ := hs
+    subst hs
+    cases r with
+    | true => exact hi.holdMove (p := .held) (Or.inr rfl) (Or.inl (by rw [h]; rfl)) (fun _ => rfl)
+    | false => mx_frame h
+  · simp only [step] at hs
+    split at hs <;> simp at hs
+    next h =>
+    subst hs
+    have hk : (s.pc f).k = .held := by rw [h.1]; rfl
+    have hof := hi.hold_owner f (Or.inr hk)
+    have hemp : ∀ g, g ∈ s.inCs → g = f := by
+      intro g hg
+      have := hi.hold_owner g (Or.inr (hi.cs_held g hg))
+      rw [hof] at this; cases this; rfl
+    apply hi.csFrame
+    · intro g hg; simp at hg; rcases hg with rfl | hg
+      · exact hk
+      · exact hi.cs_held g hg
+    · rw [List.nodup_cons]; exact ⟨h.2, hi.cs_nodup⟩
+    · intro g hg; simp at hg; rcases hg with rfl | hg
+      · simp
+      · exact absurd (hemp g hg ▸ hg) h.2
+  · simp only [step] at hs
+    split at hs <;> simp at hs
+    next h =>
+    subst hs
+    have hk : (s.pc f).k = .held := by rw [h.1]; rfl
+    have hof := hi.hold_owner f (Or.inr hk)
+    have hemp : ∀ g, g ∈ s.inCs → g = f := by
+      intro g hg
+      have := hi.hold_owner g (Or.inr (hi.cs_held g hg))
+      rw [hof] at this; cases this; rfl
+    apply hi.csFrame
+    · intro g hg; simp at hg; exact hi.cs_held g hg.1
+    · exact hi.cs_nodup.sublist List.filter_sublist
+    · intro g hg; simp at hg; exact absurd (hemp g hg.1) hg.2
+  · simp only [step] at hs
+    split at hs <;> simp at hs
+    next h =>
+    subst hs
+    exact hi.holdMove (p := .unlockCalled) (Or.inl rfl) (Or.inr (by rw [h.1]; rfl)) (fun hc => absurd hc h.2.2)
+
+theorem inv_step_unlock {s s' : St} (hi : Inv s) :
+    ∀ e, (∃ f o, e = Ev.fadd f o) ∨ (∃ f n, e = Ev.rHead f n) ∨ (∃ f n x, e = Ev.rNext f n x) ∨
+      (∃ f n, e = Ev.wHead f n) ∨ (∃ f, e = Ev.retUnlock f) →
+    step s e = some s' → Inv s' := by
+  intro e he hs
+  rcases he with ⟨f, old, rfl⟩ | ⟨f, n, rfl⟩ | ⟨f, n, x, rfl⟩ | ⟨f, n, rfl⟩ | ⟨f, rfl⟩
+  · simp only [step] at hs
+    split at hs <;> simp at hs
+    next h =>
+    obtain ⟨rfl, hs⟩ := hs
+    split at hs <;> simp at hs <;> subst hs
+    · next h1 => exact hi.release (p := .unlockDone) (by rw [h]; rfl) (by rw [if_pos (by omega)]; rfl)
+    · next h1 => exact hi.release (p := .wakeLoop) (by rw [h]; rfl) (by rw [if_neg (by omega)]; rfl)
+  · simp only [step] at hs
+    split at hs <;> simp at hs
+    next h => obtain ⟨_, hs⟩ := hs; subst hs; mx_frame h
+  · simp only [step] at hs
+    split at hs <;> simp at hs
+    next hh h =>
+    obtain ⟨⟨rfl, rfl⟩, hs⟩ := hs
+    split at hs <;> simp at hs <;> subst hs
+    · mx_frame h
+    · next hx => exact hi.gotNext (p := .popGotNext n (headNext s)) rfl (by rw [h]; rfl) (headNext_ne_zero hx)
+  · simp only [step] at hs
+    split at hs <;> simp at hs
+    next hh x h =>
+    obtain ⟨rfl, hs⟩ := hs
+    split at hs <;> simp at hs
+    next m g heq =>
+    subst hs
+    exact hi.pop (p := .popMoved hh n) rfl (by rw [h]; rfl) heq
+  · simp only [step] at hs
+    split at hs <;> simp at hs
+    next h => subst hs; mx_frame h
+
+theorem inv_step_wake {s s' : St} (hi : Inv s) :
+    ∀ e, (∃ f g v, e = Ev.wState f g v) ∨ (∃ f g v, e = Ev.rState f g v) ∨ (∃ f g n, e = Ev.wNode f g n) ∨
+      (∃ f n g, e = Ev.wData f n g) ∨ (∃ f n g, e = Ev.rData f n g) →
+    step s e = some s' → Inv s' := by
+  intro e he hs
+  rcases he with ⟨f, g, v, rfl⟩ | ⟨f, g, v, rfl⟩ | ⟨f, g, n, rfl⟩ | ⟨f, n, g, rfl⟩ | ⟨f, n, g, rfl⟩
+  · simp only [step] at hs
+    split at hs <;> simp at hs
+    · next h => obtain ⟨_, hs⟩ := hs; subst hs; mx_frame h
+    · next h =>
+      obtain ⟨_, hs⟩ := hs; subst hs
+      exact hi.wakeDone (p := .unlockDone) rfl (by rw [h]; rfl)
+  · simp only [step] at hs
+    split at hs <;> simp at hs
+    next h =>
+    obtain ⟨_, hs⟩ := hs
+    split at hs <;> simp at hs <;> subst hs
+    · mx_frame h
+    · exact hi.wakeDone (p := .unlockDone) rfl (by rw [h]; rfl)
+  · simp only [step] at hs
+    split at hs <;> simp at hs
+    · next h => obtain ⟨_, hs⟩ := hs; subst hs; mx_frame h
+    · next h => obtain ⟨_, hs⟩ := hs; subst hs; mx_frame h
+  · simp only [step] at hs
+    split at hs <;> simp at hs
+    · next h => obtain ⟨_, hs⟩ := hs; subst hs; mx_frame h
+    · next h => obtain ⟨_, hs⟩ := hs; subst hs; mx_frame h
+  · simp only [step] at hs
+    split at hs <;> simp at hs
+    · next h => obtain ⟨_, hs⟩ := hs; subst hs; mx_frame h
+    · next h => obtain ⟨_, hs⟩ := hs; subst hs; mx_frame h
+
+theorem inv_step {s s' : St} {e : Ev} (hi : Inv s) (hs : step s e = some s') : Inv s' := by
+  cases e with
+  | callLock f => exact inv_step_lock hi _ (Or.inl ⟨_, rfl⟩) hs
+  | fsub f o => exact inv_step_lock hi _ (Or.inr (Or.inl ⟨_, _, rfl⟩)) hs
+  | retLock f => exact inv_step_lock hi _ (Or.inr (Or.inr (Or.inl ⟨_, rfl⟩))) hs
+  | xchgTail f a b => exact inv_step_lock hi _ (Or.inr (Or.inr (Or.inr (Or.inl ⟨_, _, _, rfl⟩)))) hs
+  | wNext f a b => exact inv_step_lock hi _ (Or.inr (Or.inr (Or.inr (Or.inr (Or.inl ⟨_, _, _, rfl⟩))))) hs
+  | rNode f a b => exact inv_step_lock hi _ (Or.inr (Or.inr (Or.inr (Or.inr (Or.inr ⟨_, _, _, rfl⟩))))) hs
+  | callTry f => exact inv_step_try hi _ (Or.inl ⟨_, rfl⟩) hs
+  | casCounter f o b => exact inv_step_try hi _ (Or.inr (Or.inl ⟨_, _, _, rfl⟩)) hs
+  | retTry f r => exact inv_step_try hi _ (Or.inr (Or.inr (Or.inl ⟨_, _, rfl⟩))) hs
+  | csEnter f => exact inv_step_try hi _ (Or.inr (Or.inr (Or.inr (Or.inl ⟨_, rfl⟩)))) hs
+  | csExit f v => exact inv_step_try hi _ (Or.inr (Or.inr (Or.inr (Or.inr (Or.inl ⟨_, _, rfl⟩))))) hs
+  | callUnlock f => exact inv_step_try hi _ (Or.inr (Or.inr (Or.inr (Or.inr (Or.inr ⟨_, rfl⟩))))) hs
+  | fadd f o => exact inv_step_unlock hi _ (Or.inl ⟨_, _, rfl⟩) hs
+  | rHead f n => exact inv_step_unlock hi _ (Or.inr (Or.inl ⟨_, _, rfl⟩)) hs
+  | rNext f n x => exact inv_step_unlock hi _ (Or.inr (Or.inr (Or.inl ⟨_, _, _, rfl⟩))) hs
+  | wHead f n => exact inv_step_unlock hi _ (Or.inr (Or.inr (Or.inr (Or.inl ⟨_, _, rfl⟩)))) hs
+  | retUnlock f => exact inv_step_unlock hi _ (Or.inr (Or.inr (Or.inr (Or.inr ⟨_, rfl⟩)))) hs
+  | wState f g v => exact inv_step_wake hi _ (Or.inl ⟨_, _, _, rfl⟩) hs
+  | rState f g v => exact inv_step_wake hi _ (Or.inr (Or.inl ⟨_, _, _, rfl⟩)) hs
+  | wNode f g n => exact inv_step_wake hi _ (Or.inr (Or.inr (Or.inl ⟨_, _, _, rfl⟩))) hs
+  | wData f n g => exact inv_step_wake hi _ (Or.inr (Or.inr (Or.inr (Or.inl ⟨_, _, _, rfl⟩)))) hs
+  | rData f n g => exact inv_step_wake hi _ (Or.inr (Or.inr (Or.inr (Or.inr ⟨_, _, _, rfl⟩)))) hs
+
+theorem inv_of_run {stub : Nat} {nodeOf : Nat → Nat} {es : List Ev} {s : St}
+    (h : (sys stub nodeOf).run es = some s) : Inv s :=
+  Sys.inv_of_run (sys stub nodeOf) Inv (inv_init stub nodeOf) (fun _ _ _ hi hs => inv_step hi hs) h
+
+/-! ### 5. control flow, linearisation points, history invariants -/
+
+/-- the fiber performing an event -/
+def actor : Ev → Nat
+  | .callLock f | .retLock f | .callTry f | .retTry f _ | .callUnlock f | .retUnlock f
+  | .csEnter f | .csExit f _ | .fsub f _ | .fadd f _ | .casCounter f _ _ | .wState f _ _
+  | .rState f _ _ | .rNode f _ _ | .wNode f _ _ | .wData f _ _ | .rData f _ _ | .wNext f _ _
+  | .xchgTail f _ _ | .rHead f _ | .rNext f _ _ | .wHead f _ => f
+
+/-- normalise `hs : step s e = some s'` into an explicit record for `s'` (all branches) -/
+local macro "step_cases" hs:ident : tactic =>
+  `(tactic| (simp only [step] at $hs:ident <;> (repeat' split at $hs:ident) <;> simp at $hs:ident <;>
+     (first | subst $hs:ident | (obtain ⟨_, $hs:ident⟩ := $hs:ident; subst $hs:ident))))
+
+theorem step_pc_other {s s' : St} {e : Ev} (hs : step s e = some s') (g : Nat)
+    (hg : g ≠ actor e) : s'.pc g = s.pc g := by
+  cases e <;> step_cases hs <;> simp_all [upd, actor]
+
+/-- control flow into / out of the wake loop: entered only by a `fetch_add` that saw waiters,
+    left only by the pop (`head := next`) -/
+theorem wake_flow {s s' : St} {e : Ev} (hs : step s e = some s') (w : Nat) :
+    (s'.pc w).isWake = true ↔
+      (((s.pc w).isWake = true ∧ ¬ ∃ x, e = .wHead w x) ∨ (∃ old, e = .fadd w old ∧ old + 1 ≠ 1)) := by
+  by_cases hw : w = actor e
+  · subst hw
+    cases e <;> step_cases hs <;> simp_all [upd, actor, Pc.isWake]
+  · rw [step_pc_other hs w hw]
+    cases e <;> simp_all [actor] <;> (intros; omega)
+
+/-- a fiber is past its pop only through `head := next` -/
+theorem post_flow {s s' : St} {e : Ev} (hs : step s e = some s') (w : Nat)
+    (h : (s'.pc w).isPost = true) : (s.pc w).isPost = true ∨ ∃ x, e = .wHead w x := by
+  by_cases hw : w = actor e
+  · subst hw
+    cases e <;> step_cases hs <;> simp_all [upd, actor, Pc.isPost]
+  · rw [step_pc_other hs w hw] at h; exact Or.inl h
+
+/-- `unlockDone` (about to return from unlock) is reached from the uncontended `fetch_add` or
+    from the end of a wake (after the pop) only -/
+theorem unlockDone_flow {s s' : St} {e : Ev} (hs : step s e = some s') (w : Nat)
+    (h : s'.pc w = .unlockDone) :
+    s.pc w = .unlockDone ∨ (∃ old, e = .fadd w old ∧ old + 1 = 1) ∨ (s.pc w).isPost = true := by
+  by_cases hw : w = actor e
+  · subst hw
+    cases e <;> step_cases hs <;> simp_all [upd, actor, Pc.isPost]
+  · rw [step_pc_other hs w hw] at h; exact Or.inl h
+
+def isContFadd (w : Nat) : Ev → Bool
+  | .fadd f old => decide (f = w ∧ old + 1 ≠ 1)
+  | _ => false
+
+def isPopBy (w : Nat) : Ev → Bool
+  | .wHead f _ => decide (f = w)
+  | _ => false
+
+def isPopEv : Ev → Bool
+  | .wHead _ _ => true
+  | _ => false
+
+def isCsExit : Ev → Bool
+  | .csExit _ _ => true
+  | _ => false
+
+theorem wake_flow_cnt {s s' : St} {e : Ev} (hs : step s e = some s') (w : Nat) :
+    (if isContFadd w e then 1 else 0) + (if (s.pc w).isWake then 1 else 0) =
+      (if isPopBy w e then 1 else 0) + (if (s'.pc w).isWake then 1 else 0) := by
+  by_cases hw : w = actor e
+  · subst hw
+    cases e <;> step_cases hs <;> simp_all [upd, actor, Pc.isWake, isContFadd, isPopBy]
+  · rw [step_pc_other hs w hw]
+    have h1 : isContFadd w e = false := by
+      cases e <;> simp_all [actor, isContFadd]; omega
+    have h2 : isPopBy w e = false := by
+      cases e <;> simp_all [actor, isPopBy]; omega
+    simp [h1, h2]
+
+theorem hd_flow {s s' : St} {e : Ev} (hs : step s e = some s') :
+    s'.hd = s.hd + (if isPopEv e then 1 else 0) := by
+  cases e <;> step_cases hs <;> simp [isPopEv]
+
+/-! ### critical sections -/
+
+/-- the critical section is empty or holds exactly the owner, which is in `held` -/
+theorem Inv.inCs_cases {s : St} (hi : Inv s) :
+    s.inCs = [] ∨ ∃ f, s.inCs = [f] ∧ s.owner = some f ∧ s.pc f = .held := by
+  have hown : ∀ g, g ∈ s.inCs → s.owner = some g ∧ s.pc g = .held := fun g hg =>
+    ⟨hi.hold_owner g (Or.inr (hi.cs_held g hg)), (k_held _).1 (hi.cs_held g hg)⟩
+  have hnd := hi.cs_nodup
+  cases hl : s.inCs with
+  | nil => exact Or.inl rfl
+  | cons a l =>
+    right
+    rw [hl] at hown hnd
+    cases l with
+    | nil => exact ⟨a, rfl, hown a (by simp)⟩
+    | cons b l =>
+      exfalso
+      have h1 := (hown a (by simp)).1
+      have h2 := (hown b (by simp)).1
+      rw [h1] at h2; cases h2
+      simp at hnd
+
+/-- occupancy tracker on the `cs enter` / `cs exit` notes: strict alternation -/
+def csTrack (l : List Nat) : Ev → Option (List Nat)
+  | .csEnter f => if l = [] then some [f] else none
+  | .csExit f _ => if l = [f] then some [] else none
+  | _ => some l
+
+theorem cs_flow {s s' : St} {e : Ev} (hi : Inv s) (hs : step s e = some s') :
+    csTrack s.inCs e = some s'.inCs := by
+  cases e
+  case csEnter f =>
+    simp only [step] at hs; split at hs <;> simp at hs; subst hs
+    next h =>
+    rcases hi.inCs_cases with h0 | ⟨g, h1, h2, h3⟩
+    · simp [csTrack, h0]
+    · exfalso
+      have := hi.hold_owner f (Or.inr (by rw [h.1]; rfl))
+      rw [h2] at this; cases this
+      exact h.2 (by rw [h1]; simp)
+  case csExit f v =>
+    simp only [step] at hs; split at hs <;> simp at hs; subst hs
+    next h =>
+    rcases hi.inCs_cases with h0 | ⟨g, h1, h2, h3⟩
+    · rw [h0] at h; simp at h
+    · have : g = f := by have := h.2.1; rw [h1] at this; simp at this; exact this.symm
+      subst this
+      simp [csTrack, h1]
+  all_goals (step_cases hs <;> simp [csTrack])
+
+/-- each completed critical section increments the protected cell by exactly one -/
+theorem data_flow {s s' : St} {e : Ev} (hi : Inv s) (hs : step s e = some s') :
+    s'.data = s.data + (if isCsExit e then 1 else 0) := by
+  cases e
+  case csExit f v =>
+    simp only [step] at hs; split at hs <;> simp at hs; subst hs
+    next h => simp [isCsExit, h.2.2, hi.cs_seen f h.2.1]
+  all_goals (step_cases hs <;> simp [isCsExit])
+
+/-! ### the abstract atomic lock -/
+
+inductive LockEv
+  | acq (f : Nat)
+  | rel (f : Nat)
+  deriving Repr, DecidableEq
+
+/-- specification: an atomic lock whose state is its owner -/
+def lockStep : Option Nat → LockEv → Option (Option Nat)
+  | none, .acq f => some (some f)
+  | some g, .rel f => if g = f then some none else none
+  | _, _ => none
+
+def Lock : Sys (Option Nat) LockEv := { init := none, step := lockStep }
+
+/-- linearisation points: uncontended `fetch_sub`, successful trylock CAS and the waker's
+    `head := next` (on behalf of the popped waiter) acquire; the `fetch_add` releases -/
+def absEv (s : St) : Ev → Option LockEv
+  | .fsub f old => if old = 1 then some (.acq f) else none
+  | .casCounter f _ ok => if ok then some (.acq f) else none
+  | .wHead _ _ => match s.order[s.hd]? with
+    | some (_, g) => some (.acq g)
+    | none => none
+  | .fadd f _ => some (.rel f)
+  | _ => none
+
+theorem owner_step {s s' : St} {e : Ev} (hi : Inv s) (hs : step s e = some s') :
+    match absEv s e with
+    | none => s'.owner = s.owner
+    | some a => lockStep s.owner a = some s'.owner := by
+  cases e
+  case fsub f old =>
+    simp only [step] at hs; split at hs <;> simp at hs
+    obtain ⟨rfl, hs⟩ := hs
+    split at hs <;> simp at hs <;> subst hs
+    · next h1 => simp [absEv, h1, lockStep, (hi.free_of_one h1).1]
+    · next h1 => simp [absEv, h1]
+  case casCounter f found ok =>
+    simp only [step] at hs; split at hs <;> simp at hs
+    obtain ⟨⟨rfl, rfl⟩, hs⟩ := hs
+    split at hs <;> simp at hs <;> subst hs
+    · next h1 => simp at h1; simp [absEv, h1, lockStep, (hi.free_of_one h1).1]
+    · next h1 => simp at h1; simp [absEv, h1]
+  case wHead f n =>
+    simp only [step] at hs; split at hs <;> simp at hs
+    next hh x h =>
+    obtain ⟨rfl, hs⟩ := hs
+    split at hs <;> simp at hs
+    next m g heq =>
+    subst hs
+    have := (hi.pop_target (f := f) (by rw [h]; rfl) heq).1
+    simp [absEv, heq, lockStep, this]
+  case fadd f old =>
+    simp only [step] at hs; split at hs <;> simp at hs
+    next h =>
+    obtain ⟨rfl, hs⟩ := hs
+    have ho := hi.hold_owner f (Or.inl (by rw [h]; rfl))
+    split at hs <;> simp at hs <;> subst hs <;> simp [absEv, lockStep, ho]
+  all_goals (step_cases hs <;> simp [absEv])
+
+/-! ### history invariants -/
+
+/-- `Sys.hist_inv_of_run` with the run itself available in the step case -/
+theorem hist_run {stub : Nat} {nodeOf : Nat → Nat} (I : St → List Ev → Prop)
+    (h0 : I (init stub nodeOf) [])
+    (hstep : ∀ s es e s', (sys stub nodeOf).run es = some s → Inv s → I s es →
+      step s e = some s' → I s' (es ++ [e]))
+    {es : List Ev} {s : St} (h : (sys stub nodeOf).run es = some s) : I s es := by
+  have := Sys.hist_inv_of_run (sys stub nodeOf)
+    (fun s es => (sys stub nodeOf).run es = some s ∧ I s es) ⟨rfl, h0⟩
+    (fun s es e s' hI hs => by
+      refine ⟨?_, hstep s es e s' hI.1 (inv_of_run hI.1) hI.2 hs⟩
+      have h1 := hI.1
+      simp only [Sys.run] at h1 ⊢
+      rw [Sys.runFrom_append, h1]
+      simp only [Option.bind, Sys.runFrom]
+      have : (sys stub nodeOf).step s e = some s' := hs
+      rw [this]) h
+  exact this.2
+
+/-- every contended unlock of `w` is matched by exactly one pop by `w`, except the one that is
+    in its wake loop right now -/
+theorem handoff_count {stub : Nat} {nodeOf : Nat → Nat} {es : List Ev} {s : St}
+    (h : (sys stub nodeOf).run es = some s) (w : Nat) :
+    es.countP (isContFadd w) = es.countP (isPopBy w) + (if (s.pc w).isWake then 1 else 0) := by
+  refine hist_run (fun s es => es.countP (isContFadd w) =
+      es.countP (isPopBy w) + (if (s.pc w).isWake then 1 else 0)) ?_ ?_ h
+  · simp [init, Pc.isWake]
+  · intro s es e s' _ _ hI hs
+    have := wake_flow_cnt hs w
+    simp only [List.countP_append, List.countP_singleton]
+    omega
+
+/-- `hd` counts the pops, the protected cell counts the completed critical sections -/
+theorem counts {stub : Nat} {nodeOf : Nat → Nat} {es : List Ev} {s : St}
+    (h : (sys stub nodeOf).run es = some s) :
+    s.hd = es.countP isPopEv ∧ s.data = es.countP isCsExit := by
+  refine hist_run (fun s es => s.hd = es.countP isPopEv ∧ s.data = es.countP isCsExit) ?_ ?_ h
+  · simp [init]
+  · intro s es e s' _ hi hI hs
+    have h1 := hd_flow hs
+    have h2 := data_flow hi hs
+    simp only [List.countP_append, List.countP_singleton]
+    omega
+
+/-- the `cs enter` / `cs exit` notes of an accepted trace strictly alternate, and `inCs` is
+    the tracker's state -/
+theorem cs_alternate {stub : Nat} {nodeOf : Nat → Nat} {es : List Ev} {s : St}
+    (h : (sys stub nodeOf).run es = some s) : es.foldlM csTrack [] = some s.inCs := by
+  refine hist_run (fun s es => es.foldlM csTrack [] = some s.inCs) ?_ ?_ h
+  · simp [init]
+  · intro s es e s' _ hi hI hs
+    simp only [List.foldlM_append, hI]
+    simp [cs_flow hi hs]
+
+/-- the projection of a run to the linearisation points -/
+def absRun : St → List Ev → List LockEv
+  | _, [] => []
+  | s, e :: es => match step s e with
+    | none => []
+    | some s' => (absEv s e).toList ++ absRun s' es
+
+theorem absRun_snoc {stub : Nat} {nodeOf : Nat → Nat} {e : Ev} {es : List Ev} : ∀ {s0 s s' : St},
+    (sys stub nodeOf).runFrom s0 es = some s → step s e = some s' →
+    absRun s0 (es ++ [e]) = absRun s0 es ++ (absEv s e).toList := by
+  induction es with
+  | nil =>
+    intro s0 s s' h hs
+    simp [Sys.runFrom] at h; subst h
+    simp [absRun, hs]
+  | cons a es ih =>
+    intro s0 s s' h hs
+    simp only [Sys.runFrom] at h
+    have : (sys stub nodeOf).step s0 a = step s0 a := rfl
+    rw [this] at h
+    cases h1 : step s0 a with
+    | none => simp [h1] at h
+    | some s1 =>
+      simp only [h1] at h
+      simp only [List.cons_append, absRun, h1]
+      rw [ih h hs]; simp
+
+/-- refinement: the linearisation points of every accepted trace form a run of the atomic
+    lock, ending in the ghost owner -/
+theorem refines {stub : Nat} {nodeOf : Nat → Nat} {es : List Ev} {s : St}
+    (h : (sys stub nodeOf).run es = some s) :
+    Lock.run (absRun (init stub nodeOf) es) = some s.owner := by
+  refine hist_run (fun s es => Lock.run (absRun (init stub nodeOf) es) = some s.owner) ?_ ?_ h
+  · simp [absRun, Sys.run, Sys.runFrom, Lock, init]
+  · intro s es e s' hr hi hI hs
+    have hsn : absRun (init stub nodeOf) (es ++ [e]) =
+        absRun (init stub nodeOf) es ++ (absEv s e).toList := absRun_snoc hr hs
+    rw [hsn]
+    simp only [Sys.run] at hI ⊢
+    rw [Sys.runFrom_append, hI]
+    have := owner_step hi hs
+    cases ha : absEv s e with
+    | none => rw [ha] at this; simp [Sys.runFrom, this]
+    | some a =>
+      rw [ha] at this
+      simp [Sys.runFrom, Lock, this]
+
+/-! ### statements used by `Props/C03.lean` -/
+
+/-- fiber `f` holds the mutex: it is between an acquire point and its release `fetch_add`, or
+    it was handed the mutex by a waker's pop and has not resumed yet -/
+def Holds (s : St) (f : Nat) : Prop :=
+  (s.pc f).isHold = true ∨ (s.pc f = .parked ∧ s.owner = some f)
+
+theorem Inv.holds_iff {s : St} (hi : Inv s) (f : Nat) : Holds s f ↔ s.owner = some f := by
+  constructor
+  · rintro (h | h)
+    · exact hi.hold_owner f ((k_isHold _).2 h)
+    · exact h.2
+  · intro h
+    rcases hi.owner_hold f h with h1 | h1
+    · exact Or.inl ((k_isHold _).1 h1)
+    · exact Or.inr ⟨(k_parked _).1 h1, h⟩
+
+theorem Inv.wake_has_waiter {s : St} (hi : Inv s) {w : Nat} (hw : (s.pc w).isWake = true) :
+    s.hd < s.order.length ∨ ∃ g, (s.pc g).isPre = true := by
+  obtain ⟨g, hg⟩ := hi.wake_ann w ((k_isWake _).2 hw)
+  have hlt : ∀ i (x : Nat × Nat), s.order[i]? = some x → s.hd ≤ i → s.hd < s.order.length := by
+    intro i x h1 h2
+    apply Classical.byContradiction; intro hn
+    rw [List.getElem?_eq_none (by omega)] at h1; cases h1
+  rcases (ann_iff s g).1 hg with h | ⟨m, p, i, h⟩ | ⟨h, ho⟩
+  · exact Or.inr ⟨g, h⟩
+  · have := hi.q_xchgd g m i (by rw [h]; rfl)
+    exact Or.inl (hlt i _ this.1 this.2.1)
+  · obtain ⟨i, n, h1, h2, -⟩ := hi.q_parked g (by rw [h]; rfl) ho
+    exact Or.inl (hlt i _ h2 h1)
+
+/-- the node a locker is about to enqueue -/
+def Pc.preNode : Pc → Nat
+  | .waitGotNode n | .waitWroteData n | .waitClearedNode n | .pushCleared n => n
+  | _ => 1
+
+/-- enqueued nodes are non-NULL (the wait function asserts `this_fiber->mpsc_fifo_node`) -/
+structure NZ (s : St) : Prop where
+  pcs : ∀ f, (s.pc f).preNode ≠ 0
+  ord : ∀ (i n f : Nat), s.order[i]? = some (n, f) → n ≠ 0
+
+theorem nz_step {s s' : St} {e : Ev} (hz : NZ s) (hs : step s e = some s') : NZ s' := by
+  obtain ⟨h1, h2⟩ := hz
+  cases e
+  case xchgTail f a b =>
+    simp only [step] at hs; split at hs <;> simp at hs
+    next m hpc =>
+    obtain ⟨⟨rfl, rfl⟩, hs⟩ := hs; subst hs
+    constructor
+    · intro g; simp only [upd]; split
+      · simp [Pc.preNode]
+      · exact h1 g
+    · intro i n g hg
+      rcases getElem?_snoc_cases hg with h | ⟨-, h⟩
+      · exact h2 i n g h
+      · cases h; have := h1 f; rw [hpc] at this; exact this
+  case rNode f g n =>
+    simp only [step] at hs; split at hs <;> simp at hs
+    obtain ⟨⟨rfl, rfl, hn⟩, hs⟩ := hs; subst hs
+    constructor
+    · intro g; simp only [upd]; split
+      · simpa [Pc.preNode] using hn
+      · exact h1 g
+    · exact h2
+  all_goals
+    step_cases hs <;> constructor <;> intros <;>
+      first
+        | (apply h2; assumption)
+        | (rename_i g; exact h1 g)
+        | (rename_i g; have := h1 g; simp only [upd]; split <;> simp_all [Pc.preNode])
+
+theorem nz_of_run {stub : Nat} {nodeOf : Nat → Nat} {es : List Ev} {s : St}
+    (h : (sys stub nodeOf).run es = some s) : NZ s :=
+  Sys.inv_of_run (sys stub nodeOf) NZ ⟨by simp [sys, init, Pc.preNode], by simp [sys, init]⟩
+    (fun _ _ _ hz hs => nz_step hz hs) h
+
+/-- a failed `trypop` in the wake loop: some announced waiter has not finished its push -/
+theorem Inv.retry_justified {s s' : St} (hi : Inv s) (hz : NZ s) {w h : Nat}
+    (hs : step s (.rNext w h 0) = some s') :
+    s'.pc w = .wakeLoop ∧ ∃ g, (s.pc g).isPre = true ∨ ∃ m p i, s.pc g = .pushXchgd m p i := by
+  simp only [step] at hs; split at hs <;> simp at hs
+  next hh hpc =>
+  obtain ⟨⟨rfl, h0⟩, hs⟩ := hs
+  subst hs
+  refine ⟨by simp, ?_⟩
+  rcases hi.wake_has_waiter (w := w) (by rw [hpc]; rfl) with hlt | ⟨g, hg⟩
+  · unfold headNext at h0
+    have hsome : s.order[s.hd]? = some s.order[s.hd] := List.getElem?_eq_getElem hlt
+    rcases hx : s.order[s.hd] with ⟨n, g⟩
+    rw [hx] at hsome
+    rw [hsome] at h0
+    simp only at h0
+    have hl : s.linked s.hd = false := by
+      cases hl : s.linked s.hd with
+      | false => rfl
+      | true => rw [hl] at h0; simp at h0; exact absurd h0.symm (hz.ord _ _ _ hsome)
+    rcases hi.q_ent s.hd n g (Nat.le_refl _) hsome with hk | hk
+    · obtain ⟨q, hq⟩ := (k_xchgd _ _ _).1 hk
+      exact ⟨g, Or.inr ⟨_, _, _, hq⟩⟩
+    · rw [hl] at hk; simp at hk
+  · exact ⟨g, Or.inl hg⟩
+
+/-- the wake loop is left only through the pop, which hands the mutex to the oldest waiter -/
+theorem Inv.wake_exit {s s' : St} {e : Ev} (hi : Inv s) (hs : step s e = some s') {w : Nat}
+    (hw : (s.pc w).isWake = true) :
+    (s'.pc w).isWake = true ∨
+    ∃ x n g, e = .wHead w x ∧ s.order[s.hd]? = some (n, g) ∧ Ann s g ∧ s.pc g = .parked ∧
+      s.owner = none ∧ s'.owner = some g ∧ s'.hd = s.hd + 1 ∧ (s'.pc w).isPost = true := by
+  by_cases h : (s'.pc w).isWake = true
+  · exact Or.inl h
+  · right
+    have hf := (wake_flow hs w)
+    have : ∃ x, e = .wHead w x := by
+      apply Classical.byContradiction; intro hn
+      exact h (hf.2 (Or.inl ⟨hw, hn⟩))
+    obtain ⟨x, rfl⟩ := this
+    simp only [step] at hs; split at hs <;> simp at hs
+    next hh x' hpc =>
+    obtain ⟨rfl, hs⟩ := hs
+    split at hs <;> simp at hs
+    next m g heq =>
+    subst hs
+    obtain ⟨h1, h2, h3, h4, h5⟩ := hi.pop_target (f := w) (by rw [hpc]; rfl) heq
+    exact ⟨x, m, g, rfl, heq, h4, (k_parked _).1 h3, h1, rfl, rfl, by simp [Pc.isPost]⟩
+
+/-- shape of the release step -/
+theorem Inv.fadd_step {s s' : St} (hi : Inv s) {f : Nat} {old : Int}
+    (hs : step s (.fadd f old) = some s') :
+    s.pc f = .unlockCalled ∧ old = s.counter ∧ s.owner = some f ∧ s'.owner = none ∧
+    (if old + 1 = 1 then s'.pc f = .unlockDone ∧ ∀ g, ¬ Ann s g
+     else s'.pc f = .wakeLoop ∧ ∃ g, Ann s g) := by
+  simp only [step] at hs; split at hs <;> simp at hs
+  next hpc =>
+  obtain ⟨rfl, hs⟩ := hs
+  have ho := hi.hold_owner f (Or.inl (by rw [hpc]; rfl))
+  obtain ⟨n, hc, hn⟩ := hi.cnt
+  rw [ho] at hn; simp at hn
+  split at hs <;> simp at hs <;> subst hs
+  · next h1 =>
+    have : n = 0 := by omega
+    subst this
+    refine ⟨hpc, rfl, ho, rfl, ?_⟩
+    rw [if_pos (by omega)]; exact ⟨by simp, Card.zero_iff.1 hc⟩
+  · next h1 =>
+    refine ⟨hpc, rfl, ho, rfl, ?_⟩
+    rw [if_neg (by omega)]; exact ⟨by simp, hc.pos (by omega)⟩
+
+/-- shape of a successful uncontended acquire (`fetch_sub` that saw 1 / trylock CAS) -/
+theorem Inv.acquire_free {s : St} (hi : Inv s) (h1 : s.counter = 1) :
+    s.owner = none ∧ (∀ g, ¬ Ann s g) ∧ ∀ g, (s.pc g).isPop = false := by
+  obtain ⟨ho, hf⟩ := hi.free_of_one h1
+  refine ⟨ho, hf, ?_⟩
+  intro g
+  cases hp : (s.pc g).isPop with
+  | false => rfl
+  | true =>
+    exfalso
+    rcases (k_isPop _).2 hp with h | h | h
+    · obtain ⟨x, hx⟩ := hi.wake_ann g (Or.inl h); exact hf x hx
+    · obtain ⟨x, hx⟩ := hi.wake_ann g (Or.inr h); exact hf x hx
+    · obtain ⟨x, hx, -⟩ := hi.waking_owner (hi.post_waking g h)
+      rw [ho] at hx; cases hx
+
+theorem cas_step {s s' : St} {f : Nat} {found : Int} {ok : Bool}
+    (hs : step s (.casCounter f found ok) = some s') :
+    s.pc f = .tryCalled ∧ found = s.counter ∧ (ok = true ↔ found = 1) ∧
+      (ok = true → s'.owner = some f ∧ s'.counter = 0) ∧ (ok = false → s'.owner = s.owner ∧ s'.counter = s.counter) := by
+  simp only [step] at hs; split at hs <;> simp at hs
+  next hpc =>
+  obtain ⟨⟨rfl, rfl⟩, hs⟩ := hs
+  split at hs <;> simp at hs <;> subst hs <;> simp_all
+
+theorem fsub_step {s s' : St} {f : Nat} {old : Int} (hs : step s (.fsub f old) = some s') :
+    s.pc f = .lockCalled ∧ old = s.counter ∧ s'.counter = old - 1 ∧
+      (if old = 1 then s'.owner = some f ∧ s'.pc f = .acquired
+       else s'.owner = s.owner ∧ s'.pc f = .lockDec old) := by
+  simp only [step] at hs; split at hs <;> simp at hs
+  next hpc =>
+  obtain ⟨rfl, hs⟩ := hs
+  split at hs <;> simp at hs <;> subst hs <;> simp_all
+
+/-- the harness's occupancy monitor never fires on a trace whose notes alternate -/
+theorem monitor_go_none : ∀ (es : List Ev) (l l' : List Nat),
+    es.foldlM csTrack l = some l' → monitor.go l es = none := by
+  intro es
+  induction es with
+  | nil => intro l l' _; simp [monitor.go]
+  | cons e es ih =>
+    intro l l' h
+    simp only [List.foldlM_cons] at h
+    cases h1 : csTrack l e with
+    | none => simp [h1] at h
+    | some l1 =>
+      simp [h1] at h
+      cases e <;> simp [csTrack] at h1 <;> try (subst h1; simp only [monitor.go]; exact ih _ _ h)
+      · obtain ⟨rfl, rfl⟩ := h1; simp [monitor.go]; exact ih _ _ h
+      · obtain ⟨rfl, rfl⟩ := h1; simp [monitor.go]; exact ih _ _ h
+
 end LibfiberVerif.Mutex
